@@ -333,6 +333,9 @@ func (p *Prog) Files() hx.Files {
 		{Name: "a/model/model.go", Data: ModelASrc},
 		{Name: "b/model/model.go", Data: ModelBSrc},
 		{Name: "other/home/home.go", Data: OtherHomeSrc},
+		{Name: "deep/audit/audit.go", Data: AuditSrc},
+		{Name: "hooks/hooks.go", Data: HooksSrc},
+		{Name: "hooks/v2/hooks.go", Data: HooksV2Src},
 	}
 	var ext, home strings.Builder
 	ext.WriteString(ExtSrc)
